@@ -62,7 +62,7 @@ def main():
     total_bad = 0
     for pid in props:
         repo = Repo("/repo"); ctx = report.Context(pid, repo)
-        importlib.import_module(f"sa.props.{pid}").check(ctx)
+        report.run_check(importlib.import_module(f"sa.props.{pid}"), ctx)
         base[pid] = {o.key for o in ctx.obligations if o.verdict == report.VIOLATED}
     for m in mods:
         rel = f"dataiter/{m}"
@@ -73,7 +73,7 @@ def main():
         for pid in props:
             try:
                 repo = Repo("/repo", overlay={rel: new}); ctx = report.Context(pid, repo)
-                importlib.import_module(f"sa.props.{pid}").check(ctx)
+                report.run_check(importlib.import_module(f"sa.props.{pid}"), ctx)
                 bad = [o for o in ctx.obligations if o.verdict == report.VIOLATED and o.key.replace("_rn", "") not in base[pid] and o.key not in base[pid]]
                 for o in bad[:6]:
                     print(f"{m} {pid} FALSE-ALARM {o.rule} {o.function}: {o.construct[:90]}\n      {o.why[:160]}")
